@@ -152,11 +152,12 @@ Record c07_variant := {
 
 (* the code as it is: template copied (0ec27eb7), deg2rad (ce96ede9), Exodus padding test on
    INT_FILL_VALUE + start accumulated + reader concatenating every block (5ac9d665), helper
-   attributes stripped from the exported copy (9a5ff0a0); SCRIP unchanged *)
+   attributes stripped from the exported copy (9a5ff0a0), SCRIP repeated-last-corner padding on
+   export and import (5e414c62) *)
 Definition c07_faithful : c07_variant :=
   {| vr_copy_template := true; vr_exo_fill := FILL; vr_exo_accumulate := true;
      vr_exo_deg2rad := true; vr_exo_read_all := true; vr_strip_helpers := true;
-     vr_scrip_pad := false |}.
+     vr_scrip_pad := true |}.
 
 (* the code before those commits (kept: the theorems say what each repair buys) *)
 Definition c07_before_fixes : c07_variant :=
@@ -164,7 +165,7 @@ Definition c07_before_fixes : c07_variant :=
      vr_exo_deg2rad := false; vr_exo_read_all := false; vr_strip_helpers := false;
      vr_scrip_pad := false |}.
 
-(* all known repairs applied (adds the proposed SCRIP padding repair) *)
+(* all known repairs applied (now the same as c07_faithful) *)
 Definition c07_repaired : c07_variant :=
   {| vr_copy_template := true; vr_exo_fill := FILL; vr_exo_accumulate := true;
      vr_exo_deg2rad := true; vr_exo_read_all := true; vr_strip_helpers := true;
@@ -565,7 +566,7 @@ Fixpoint c07_all_some {A} (l : list (option A)) : option (list A) :=
   | Some x :: l' => match c07_all_some l' with Some r => Some (x :: r) | None => None end
   end.
 
-(* proposed repair, encoder side: a face with fewer corners repeats its last corner
+(* encoder side (since /repo 5e414c62): a face with fewer corners repeats its last corner
    (n_per_face = number of non-fill entries; last = row[max(n_per_face - 1, 0)]) *)
 Definition c07_scrip_fill_row (r : row) : row :=
   let k := length (filter (fun x => negb (is_fill x)) r) in
@@ -616,7 +617,7 @@ Fixpoint c07_chunk (m : nat) (fuel : nat) (l : list Z) : list (list Z) :=
   | S f => firstn m l :: c07_chunk m f (skipn m l)
   end.
 
-(* proposed repair, reader side: entries equal to their left neighbour, from the right end of the
+(* reader side (since /repo 5e414c62): entries equal to their left neighbour, from the right end of the
    row as long as that holds, become -1 (flip / logical_and.accumulate / flip) *)
 Fixpoint c07_trail_go (l : list Z) : list Z :=
   match l with
